@@ -1,6 +1,7 @@
 package main
 
 import (
+	"go/constant"
 	"go/token"
 	"go/types"
 	"sort"
@@ -1159,4 +1160,14 @@ func expandedKey(fl *Flow, v ssa.Value, at ssa.Instruction) string {
 	}
 	walk(v, 0)
 	return k
+}
+
+// isIntConst: v is the integer constant n.
+func isIntConst(v ssa.Value, n int64) bool {
+	c, ok := v.(*ssa.Const)
+	if !ok || c.Value == nil || c.Value.Kind() != constant.Int {
+		return false
+	}
+	x, exact := constant.Int64Val(c.Value)
+	return exact && x == n
 }
